@@ -81,6 +81,15 @@ CLAIMED = {
              "definition; miniball's output must carry the certificate; RuntimeError demanded exactly when no ball exists (margin-separated).",
         design="§4 C13", technique="Coq proof (linear-algebra equivalences, weighted-sum argument, nra) + exact existence oracle + definition checks on implementation output",
         note="miniball and lstsq are oracles; in-ball existence known by construction of generators; sizes O(1) (scale dependence of isclose(resids,0) is C09)."),
+    "C14": dict(
+        text="Theorems: for every real theta the Ellipse formula (regenerated from the source each run) puts centre + d(cos,sin) on the ellipse with d>0; "
+             "Cramer's rule for ray/edge intersection (the point at distance cross(a,e)/cross(u,e) along u is a + s e); distance = |d u| for unit u; "
+             "directions depend on theta only modulo 2 pi. Partial: the polygon/spheropolygon sector selection is not modelled step by step - instead the "
+             "implementation's output is judged against the definition: the exact (Coq model, rational) distance of centre + d u to the core polygon's "
+             "boundary equals the rounding radius (0 for polygons), d>0, with the centre the exact C04 centroid; angles in [-4pi,4pi], vertex directions, "
+             "multiples of pi/4, axis-aligned edges.",
+        design="§4 C14", technique="source-to-Coq translation + Coq proof (field/trig) + exact definition check on implementation output",
+        note="uniqueness of the boundary point on a ray from an interior point of a convex set is assumed; tolerance 1e-9 size."),
 }
 
 REASON_TODO = "check not built yet (work in progress this round)"
